@@ -1,6 +1,6 @@
 """Symbolic harnesses of the fix family: C09 (converges), C10 (truthful reporting)."""
 from checks import scan_props
-from checks.scan_sym import DocMixin, F
+from checks.scan_sym import DocMixin, F, raised_verdict
 from engine import app, env
 from engine.driver import SKIP, Raised
 from engine.env import NoTracing
@@ -44,7 +44,7 @@ class C09Harness(DocMixin):
 
     def judge(self, obs, v):
         if isinstance(obs, Raised):
-            return [{"kind": "harness-exception", "detail": obs.describe()}]
+            return raised_verdict(obs)
         d, d1, d2, o1, o2, o3 = obs
         return scan_props.c09(d, d1, d2, o1, o2, o3.fail_tuples(), self.fixable)
 
@@ -79,7 +79,7 @@ class C10Harness(DocMixin):
 
     def judge(self, obs, v):
         if isinstance(obs, Raised):
-            return [{"kind": "harness-exception", "detail": obs.describe()}]
+            return raised_verdict(obs)
         d, ds, os_, d1, of = obs
         return scan_props.c10(d, ds, os_, d1, of, self.fixable, F, self.minimal)
 
